@@ -12,6 +12,11 @@ Proof. unfold upd. now rewrite Nat.eqb_refl. Qed.
 Lemma upd_other {A} (f : nat -> A) i j v : j <> i -> upd f i v j = f j.
 Proof. unfold upd. intros H. destruct (Nat.eqb_spec j i); congruence. Qed.
 
+Lemma optnat_eqb_some a i : optnat_eqb a (Some i) = true -> a = Some i.
+Proof. destruct a as [j|]; cbn; [|discriminate]. intros H. apply Nat.eqb_eq in H. congruence. Qed.
+Lemma optnat_eqb_refl i : optnat_eqb (Some i) (Some i) = true.
+Proof. cbn. apply Nat.eqb_refl. Qed.
+
 (* classification of control points *)
 Definition urun (u : upc) : bool := match u with USusp | UWkQ | UAway | UDead => false | _ => true end.
 Definition wkloop (u : upc) : bool := match u with UWkY1 | UWkY2 | UWkQ | UWkY3 | UWkE => true | _ => false end.
@@ -19,8 +24,6 @@ Definition guard_on (k : kpc) : bool :=
   match k with
   | KStore | KChk | KStake | KSgoff _ | KSload | KFtake | KFgoff _ | KSetco | KCchk | KC1 | KC2 | KC3 | KC3s | KC4 | KGoff => true
   | _ => false end.
-Definition tm_dl (t : tmst) : option Z :=
-  match t with TmArmed d | TmCanc d | TmFired d | TmHold d => Some d | _ => None end.
 
 (* ---- tactics ---- *)
 Ltac brk := repeat match goal with
